@@ -991,12 +991,13 @@ func injectClash(r *Rng, c Case) {
 	body := carr(c, "body")
 	plain := carr(c, "plain")
 	type place struct {
-		b, p map[string]any
-		path []string
+		b, p  map[string]any
+		path  []string
+		noIff bool // no if-feature on the way: the node is there whatever is enabled
 	}
 	var places []place
-	var walk func(bk, pk []any, path []string)
-	walk = func(bk, pk []any, path []string) {
+	var walk func(bk, pk []any, path []string, noIff bool)
+	walk = func(bk, pk []any, path []string, noIff bool) {
 		for _, k := range bk {
 			bn := k.(map[string]any)
 			kind := cstr(bn, "k")
@@ -1022,11 +1023,12 @@ func injectClash(r *Rng, c Case) {
 				continue
 			}
 			here := append(append([]string{}, path...), cstr(bn, "n"))
-			places = append(places, place{bn, pn, here})
-			walk(carr(bn, "kids"), carr(pn, "kids"), here)
+			ni := noIff && len(carr(pn, "iff")) == 0 && len(carr(bn, "iff")) == 0
+			places = append(places, place{bn, pn, here, ni})
+			walk(carr(bn, "kids"), carr(pn, "kids"), here, ni)
 		}
 	}
-	walk(body, plain, nil)
+	walk(body, plain, nil, true)
 	if len(places) == 0 {
 		return
 	}
@@ -1070,7 +1072,9 @@ func injectClash(r *Rng, c Case) {
 	} else {
 		dup = map[string]any{"k": "leaf", "n": cstr(victim, "n"), "type": map[string]any{"base": "string"}}
 	}
-	if !mixed && r.Chance(30) {
+	// (across modules only where target and victim are there whatever is enabled: an augment of another module into a node
+	// that a disabled feature removes is an invalid path, and a victim that is not there is no clash)
+	if !mixed && pl.noIff && len(carr(victim, "iff")) == 0 && r.Chance(30) {
 		// the second node of the name comes from another module (an augment written in a2): the children of a node are
 		// told apart by their names alone, so the two cannot both be there
 		c["aaugments"] = append(carr(c, "aaugments"), map[string]any{"path": toAny(pl.path), "kids": []any{dup}})
